@@ -30,7 +30,7 @@ pub fn closure_params(prog: &[E]) -> Vec<String> {
         walk(s, &mut |x| {
             if let E::Call { closure: Some((params, _)), .. } = x {
                 for p in params {
-                    if !out.contains(p) {
+                    if p != "_" && !out.contains(p) {
                         out.push(p.clone());
                     }
                 }
